@@ -372,7 +372,8 @@ impl Profile {
             init_regs: (3, 6),
             fuel: 40,
             flavour_w: [6, 2, 1, 1],
-            entry_w: [6, 2, 2, 0],
+            // a few ops of every profile are whole `App::update()` frames (change ticks advance, polling runs in `Last`)
+            entry_w: [6, 2, 2, 1],
             mode_w: [3, 4, 4],
             zst_pct: 12,
             app_reactors: (0, 2),
